@@ -10,8 +10,8 @@
    parameter [fixed] (so in particular for [fixed = true], the code as it is now), for all grammars,
    tables, inputs, cost functions and fuels.
 
-   Nothing here says that the search finds EVERY minimum-cost repair: the completeness half
-   ([search_complete_stmt true] of C06/Refuted.v) stays unproved. *)
+   Nothing here says that the search finds EVERY minimum-cost repair: that is the completeness half,
+   C06/CompleteSpec.v (proved in C06/CompleteProofs.v, CompleteRank.v, CompleteValidated*.v). *)
 From Coq Require Import List Arith NArith Bool Lia Sorted.
 From GV Require Import Common.Outcome Base.Grammar LR.Automaton LR.Validator
   Repair.Semantics Repair.Spec Repair.Search Repair.Confluent C06.Model C06.Spec C06.Mirror.
